@@ -298,6 +298,20 @@ def run(run):
             break
 
     # ---- histories of run-time extensions ----------------------------------
+    import collections
+
+    class RicherVersion(minecraft.Version):
+        __slots__ = ()
+
+        @property
+        def is_snapshot(self):
+            return 'w' in self.id
+    WiderVersion = collections.namedtuple(
+        'WiderVersion', tuple(minecraft.Version._fields) + ('released',))
+
+    class PlainRecord(object):
+        def __init__(self, id, protocol, supported):
+            self.id, self.protocol, self.supported = id, protocol, supported
     original = list(minecraft.KNOWN_MINECRAFT_VERSION_RECORDS)
     n_hist = 300 if thorough else 24
     fresh_counter = [0]
@@ -331,20 +345,50 @@ def run(run):
                 proto = rng.choice(pres)
             shape = forced_shape or rng.choice(('release', 'snapshot', 'pre',
                                                 'rc'))
-            vid = {'release': '9.%d.%d' % (h, fresh_counter[0]),
+            if shape == 'release' and rng.random() < 0.4:
+                # release names are digits and dots: also with a first
+                # component of several digits, or two components only
+                vid_release = rng.choice(('26.%d' % fresh_counter[0],
+                                          '10.0.%d' % fresh_counter[0],
+                                          '100.%d.%d' % (h, fresh_counter[0])))
+                run.count('extensions.release_names_with_long_first_part')
+            else:
+                vid_release = '9.%d.%d' % (h, fresh_counter[0])
+            vid = {'release': vid_release,
                    'snapshot': '9%dw%02dz%d' % (h % 10, step, fresh_counter[0]),
                    'pre': '9.%d.%d-pre1' % (h, fresh_counter[0]),
                    'rc': '9.%d-rc%d' % (h, fresh_counter[0])}[shape]
             rec = minecraft.Version(vid, proto, rng.random() < 0.6 or
                                     forced_shape is not None)
+            # a record is what has the attributes id, protocol, supported: a
+            # program may use a richer record type of its own
+            kind_ = rng.choice(('Version', 'Version', 'subclass', 'wider',
+                                'object'))
+            if kind_ == 'subclass':
+                rec = RicherVersion(*rec)
+            elif kind_ == 'wider':
+                rec = WiderVersion(rec.id, rec.protocol, rec.supported, 2026)
+            elif kind_ == 'object':
+                rec = PlainRecord(rec.id, rec.protocol, rec.supported)
+            run.seen('record_kinds', kind_)
             where = rng.choice(('append', 'append', 'insert'))
             if where == 'append' or kind == 'fresh':
                 records.append(rec)
             else:
                 records.insert(rng.randrange(len(records) + 1), rec)
             hist.append((where, vid, proto, rec.supported))
-        for _ in range(rng.choice((1, 2))):
+        try:
+            for _ in range(rng.choice((1, 2))):
+                minecraft.initglobals(use_known_records=True)
+        except Exception as e:
+            run.violation('initglobals/raised-on-extension', 'rebuilding the '
+                          'tables after a run-time extension of the records '
+                          'raised', {'history': hist, 'error': repr(e),
+                                     'record_types': sorted({
+                                         type(r).__name__ for r in records})})
+            records[:] = original
             minecraft.initglobals(use_known_records=True)
+            break
         run.case(('history', tuple(hist)))
         run.count('histories')
         if h < 2:
